@@ -655,18 +655,20 @@ impl<K: Kmer, D: Debug> DebruijnGraph<K, D> {
         writeln!(writer, "],").unwrap();
 
         writeln!(writer, "\"links\": [").unwrap();
+        let mut wrote_any = false;
         for i in 0..self.len() {
             let node = self.get_node(i);
-            match node.edges_to_json(writer) {
-                true => {
-                    if i == self.len() - 1 {
-                        writeln!(writer).unwrap();
-                    } else {
-                        writeln!(writer, ",").unwrap();
-                    }
-                }
-                _ => continue,
+            if node.r_edges().is_empty() {
+                continue;
             }
+            // separator before every group of links but the first
+            if wrote_any {
+                writeln!(writer, ",").unwrap();
+            }
+            wrote_any = node.edges_to_json(writer) || wrote_any;
+        }
+        if wrote_any {
+            writeln!(writer).unwrap();
         }
         writeln!(writer, "]").unwrap();
 
